@@ -7,7 +7,16 @@ def run(tier):
     exe = build.build("rel", ("replay",))["replay"]
     r = tlc.run("Models.tla", "Models.cfg", workers=12, timeout=1800, heap="12g")
     c.add_tlc(r, "model x feature type x sentinel pattern x depth-range relation x operation")
-    beh = list(dict.fromkeys(r.behaviours))
+    allb = list(dict.fromkeys(r.behaviours))
+    fam = lambda b: b[b.find('["', 6) + 2:].split('"')[0]
+    beh = [b for b in allb if fam(b) != "tian"]
+    # the tian2019 family is specification growth beyond the models C05 lists: conformance is reported, never a verdict
+    beyond = [b for b in allb if fam(b) == "tian"]
+    rb = replay.replay(exe, beyond, shards=16, timeout_s=60)
+    c.notes["beyond_property"] = {"family": "tian water content (oceanic plate, subducting plate): pressure clamp, cut-off, cap by the initial water content, "
+                                  "wt% -> fraction, the three polynomials of the four lithologies, operations", "behaviours": rb.n,
+                                  "queries": rb.stats.get("queries", 0), "deviations": len(rb.mismatches), "first": rb.mismatches[:3]}
+    for m in rb.mismatches[:5]: print("NOTE beyond-property deviation (tian2019, information only):", str(m)[:300])
     res = replay.replay(exe, beh, shards=16, timeout_s=60)
     c.add_replay(res, "World::properties vs the documented expression evaluated by the generic term evaluator")
     c.sample(beh[0][:2500] + "...")
